@@ -1115,6 +1115,10 @@ def _run(res, tier, seed, proofs_ok):
                        'theorem_or_correspondence': 'tie:evalq'},
                       found_input=False)
 
+    # ---- 4c. the text-to-card path ----
+    import c02_text
+    c02_text.run_ties(res, rng, quick)
+
     # ---- 5. the Spec against the Python references ----
     spec_ties(res, rng, meta, quick)
 
